@@ -434,6 +434,21 @@ fn run_history(input: &[u8], seq: &[BOp], expect: &HashMap<PCase, u64>, states: 
 
 // ---------------------------------------------------------------- (b) renderer histories
 
+thread_local! {
+    static FAIL_COUNT: std::cell::Cell<usize> = std::cell::Cell::new(0);
+}
+
+fn failing_shape(y: usize, x: usize, _m: fast_qr::Module) -> String {
+    let n = FAIL_COUNT.with(|c| {
+        c.set(c.get() + 1);
+        c.get()
+    });
+    if n >= 50 {
+        panic!("a caller-supplied shape that fails at its 50th module");
+    }
+    format!("M{},{}h1v1h-1", x, y)
+}
+
 #[derive(Clone, Debug, PartialEq)]
 enum ROp {
     Set(SvgOp),
@@ -459,6 +474,9 @@ fn renderer_alphabet() -> Vec<ROp> {
         ROp::Term(1),
         // a terminal rendering that fails part of the way through (a matrix whose side exceeds its storage; caught)
         ROp::Term(99),
+        // an SVG rendering that fails part of the way through (a caller-supplied shape that panics at its 50th module;
+        // caught), on a builder of its own
+        ROp::Svg(99),
     ]
 }
 
@@ -768,7 +786,7 @@ fn judge_execution(p: &Program, results: &[Option<Vec<u64>>], expect: &HashMap<P
 
 pub fn run(ctx: &Ctx) -> Collector {
     let col = Collector::new("C14", "model_checking");
-    col.set_rule("(a) E2 builder histories: for 4 inputs (numeric, alphanumeric, bytes, lower-case text that is alphanumeric once upper-cased) ALL sequences of exactly depth D (quick 4; thorough 5 for the numeric and the lower-case input, 4 for the two others; every shorter history is a prefix) over {mode(each the input or its upper-case form allows), ecl(L|H), version(1|2|7), mask(all 8), build, other1..other4 (unrelated builds on builders that are dropped; 3 and 4 are fully automatic, of equal length and different character classes)} replayed on a fresh real QRBuilder; model state = option tuple; oracle at every build step: digest of (all 177x177 module bytes, size, four fields, or error kind) = digest computed by a fresh builder with the model tuple in a PRISTINE child process (one process per tuple); unrelated builds interleaved must equal their pristine values too. (b) E2 renderer histories: all sequences to depth 4 over {8 SvgBuilder setters, svg(q1|q2), term(q1|q2), a terminal rendering that fails} and to depth 3 (thorough 4) over {5 ImageBuilder setters, png(q1|q2)}: every render = render of a fresh renderer built from the model state, the QRCode digest is unchanged after every render, and all distinct (state, symbol) renders are recomputed in reverse order in a fresh child process. (e) first-use orders: the forced-mask builds, automatic build and renders of versions 1,2,3,5,7,10,20,40 in 7 fresh processes that go through the versions in different orders; every observation equal across processes. (c) E3 schedules: 7 thread programs (2-3 real threads, 1-2 operations each, incl. two threads sharing one &QRBuilder) under the controlled scheduler at the guarded scheduling points: all interleavings with <= b preemptions (iterative bounding; fine point set and coarse point set, bounds in the evidence); oracle: every thread's result = its sequential pristine result; vacuity guard: racy canary outcomes. (d) E3-fine: the same scheduler driven by function-entry events of a second build of fast_qr (opt-level 0, -Zinstrument-mcount, nightly): 5 (thorough 8) thread programs incl. terminal and SVG renders of two sizes in opposite orders; all interleavings with <= 1 preemption at the first k (quick 1, thorough 3) entries of every (function, call site) pair per operation; expectations from fresh single-threaded processes. Supplementary (sampling, not part of the verdict basis): free-running 16-thread pass. non-trivial = a build or render was observed; distinct = distinct observation digests");
+    col.set_rule("(a) E2 builder histories: for 4 inputs (numeric, alphanumeric, bytes, lower-case text that is alphanumeric once upper-cased) ALL sequences of exactly depth D (quick 4; thorough 5 for the numeric and the lower-case input, 4 for the two others; every shorter history is a prefix) over {mode(each the input or its upper-case form allows), ecl(L|H), version(1|2|7), mask(all 8), build, other1..other4 (unrelated builds on builders that are dropped; 3 and 4 are fully automatic, of equal length and different character classes)} replayed on a fresh real QRBuilder; model state = option tuple; oracle at every build step: digest of (all 177x177 module bytes, size, four fields, or error kind) = digest computed by a fresh builder with the model tuple in a PRISTINE child process (one process per tuple); unrelated builds interleaved must equal their pristine values too. (b) E2 renderer histories: all sequences to depth 4 over {8 SvgBuilder setters, svg(q1|q2), term(q1|q2), a terminal rendering that fails, an SVG rendering that fails} and to depth 3 (thorough 4) over {5 ImageBuilder setters, png(q1|q2)}: every render = render of a fresh renderer built from the model state, the QRCode digest is unchanged after every render, and all distinct (state, symbol) renders are recomputed in reverse order in a fresh child process. (e) first-use orders: the forced-mask builds, automatic build and renders of versions 1,2,3,5,7,10,20,40 in 7 fresh processes that go through the versions in different orders; every observation equal across processes. (c) E3 schedules: 7 thread programs (2-3 real threads, 1-2 operations each, incl. two threads sharing one &QRBuilder) under the controlled scheduler at the guarded scheduling points: all interleavings with <= b preemptions (iterative bounding; fine point set and coarse point set, bounds in the evidence); oracle: every thread's result = its sequential pristine result; vacuity guard: racy canary outcomes. (d) E3-fine: the same scheduler driven by function-entry events of a second build of fast_qr (opt-level 0, -Zinstrument-mcount, nightly): 5 (thorough 8) thread programs incl. terminal and SVG renders of two sizes in opposite orders; all interleavings with <= 1 preemption at the first k (quick 1, thorough 3) entries of every (function, call site) pair per operation; expectations from fresh single-threaded processes. Supplementary (sampling, not part of the verdict basis): free-running 16-thread pass. non-trivial = a build or render was observed; distinct = distinct observation digests");
     col.assume("E3 (c) preempts at the guarded scheduling points (hook H3), E3-fine (d) at function entries inside the crate (first k per function and call site): a window that contains no call at all is not split; memory-ordering effects weaker than sequential consistency are out of scope (the crate has no atomics)");
     let thorough = ctx.tier.thorough();
 
@@ -1014,6 +1032,14 @@ pub fn run(ctx: &Ctx) -> Collector {
                         s.apply_real(&mut b);
                         s.apply_model(&mut model);
                         setters.push(s.clone());
+                    }
+                    ROp::Svg(99) => {
+                        let _ = subject::guarded(|| {
+                            let mut fb = SvgBuilder::default();
+                            fb.shape(fast_qr::convert::Shape::Square).shape(fast_qr::convert::Shape::Command(failing_shape));
+                            FAIL_COUNT.with(|c| c.set(0));
+                            fb.to_str(&syms[0].1).len()
+                        });
                     }
                     ROp::Svg(qi) => {
                         let got = b.to_str(&syms[*qi].1);
